@@ -277,39 +277,58 @@ def main():
     judge = getattr(mod, "judge", default_judge)
     classify = getattr(mod, "known_class", lambda case, impl, d: None)
     prop_fail, corr_fail, known_hit, model_gap = [], [], {}, []
-    impl_runs = {}
-    drv = None
-    for a in both:
-        if len(both) > 1 or a:
-            cases_a = [dict(c, asrt=bool(a)) if "asrt" in c else c for c in cases]
-        else:
-            cases_a = cases
-        drv_a = core.run_driver(cases_a)
-        impl_res = core.run_impl(cases_a, args.repo, assertions=a)
-        impl_runs[a] = impl_res
-        if drv is None:
-            drv = drv_a
-        for c, r, d in zip(cases_a, impl_res, drv_a):
-            p_ok, c_ok = judge(c, r, d)
-            if p_ok and c_ok:
-                continue
-            kid = classify(c, r, d)
-            if kid is not None and any(k["id"] == kid and k["status"] == "known" for k in known):
-                known_hit.setdefault(kid, []).append(c)
-                continue
-            rec = {"case": c, "impl": r, "mirror": d["mirror"], "spec": d["spec"], "assertions": a}
-            if not p_ok:
-                prop_fail.append(rec)
-            else:
-                corr_fail.append(rec)
-    # sanity: mirror and spec must agree outside the known classes (it is proved); a difference that
-    # the implementation does not share is a harness bug
     ms_ok = getattr(mod, "mirror_spec_ok", lambda c, d: d["mirror"] == d["spec"])
-    for c, d in zip(cases, drv):
-        if not ms_ok(c, d):
-            kid = classify(c, d["mirror"], d)
-            if kid is None:
-                model_gap.append({"case": c, "mirror": d["mirror"], "spec": d["spec"]})
+    dist_fn = getattr(mod, "distribution", None)
+    dist = {}
+    samples = []
+    n_prop_fail = n_corr_fail = 0
+    KEEP = 400                       # failing records kept in memory (all are counted)
+    CHUNK = 15000                    # results are judged chunk by chunk and dropped: memory stays flat
+    sample_step = max(1, len(cases) // 5)
+    for lo in range(0, len(cases), CHUNK):
+        chunk = cases[lo:lo + CHUNK]
+        drv = None
+        first_impl = None
+        for a in both:
+            if len(both) > 1 or a:
+                cases_a = [dict(c, asrt=bool(a)) if "asrt" in c else c for c in chunk]
+            else:
+                cases_a = chunk
+            drv_a = core.run_driver(cases_a)
+            impl_res = core.run_impl(cases_a, args.repo, assertions=a)
+            if drv is None:
+                drv, first_impl = drv_a, impl_res
+            for c, r, d in zip(cases_a, impl_res, drv_a):
+                p_ok, c_ok = judge(c, r, d)
+                if p_ok and c_ok:
+                    continue
+                kid = classify(c, r, d)
+                if kid is not None and any(k["id"] == kid and k["status"] == "known" for k in known):
+                    known_hit.setdefault(kid, []).append(c)
+                    continue
+                rec = {"case": c, "impl": r, "mirror": d["mirror"], "spec": d["spec"], "assertions": a}
+                if not p_ok:
+                    n_prop_fail += 1
+                    if len(prop_fail) < KEEP or len(case_key(c)) < 400:
+                        prop_fail.append(rec)
+                else:
+                    n_corr_fail += 1
+                    if len(corr_fail) < KEEP:
+                        corr_fail.append(rec)
+        # sanity: mirror and spec must agree outside the known classes (it is proved); a difference that
+        # the implementation does not share is a harness bug
+        for c, d in zip(chunk, drv):
+            if not ms_ok(c, d):
+                kid = classify(c, d["mirror"], d)
+                if kid is None and len(model_gap) < KEEP:
+                    model_gap.append({"case": c, "mirror": d["mirror"], "spec": d["spec"]})
+        for i in range(lo, lo + len(chunk)):
+            if i % sample_step == 0 and len(samples) < 6:
+                samples.append({"case": cases[i], "impl": first_impl[i - lo], "mirror": drv[i - lo]["mirror"],
+                                "spec": drv[i - lo]["spec"]})
+        if dist_fn is not None:
+            dist = core.merge_counts(dist, dist_fn(chunk, first_impl))
+        del drv, first_impl
 
     for kid, cs in getattr(mod, "KNOWN_HITS", {}).items():
         known_hit.setdefault(kid, []).extend(cs)
@@ -329,10 +348,10 @@ def main():
             "property": pid, "kind": "failing-input", "what": "implementation result differs from what the "
             "specification demands on this input", "case": best["case"], "impl": best["impl"],
             "spec": best["spec"], "mirror": best["mirror"], "assertions": best["assertions"],
-            "failing_cases_total": len(prop_fail), "broken_obligations": problems,
+            "failing_cases_total": n_prop_fail, "broken_obligations": problems,
             "replay_cmd": "%s harness/check.py %s --replay %s" % (core.PY, pid, replay_path)})
         print("VIOLATION property=%s replay=%s" % (pid, replay_path))
-        violations = len(prop_fail)
+        violations = n_prop_fail
     elif corr_fail or problems or (model_gap and not args.replay):
         replay_path = os.path.join("replays", "%s-broken-tie.json" % pid)
         first = corr_fail[0] if corr_fail else None
@@ -341,7 +360,7 @@ def main():
             "broken_obligations": problems,
             "broken_correspondence": None if first is None else {
                 "family": first["case"]["fam"], "first_differing_case": first["case"], "impl": first["impl"],
-                "mirror": first["mirror"], "differing_cases_total": len(corr_fail)},
+                "mirror": first["mirror"], "differing_cases_total": n_corr_fail},
             "mirror_vs_spec_gap": model_gap[:3],
             "searched": "%d cases on implementation, mirror and spec; none violates the property" % len(cases)})
         print("VIOLATION property=%s replay=%s no-failing-input-found" % (pid, replay_path))
@@ -356,13 +375,6 @@ def main():
     for c in cases:
         if nt(c):
             nontriv.add(case_key(c))
-    samples = []
-    step = max(1, len(cases) // 5)
-    for i in range(0, len(cases), step):
-        a0 = list(impl_runs)[0]
-        samples.append({"case": cases[i], "impl": impl_runs[a0][i], "mirror": drv[i]["mirror"], "spec": drv[i]["spec"]})
-    samples = samples[:6]
-    dist = getattr(mod, "distribution", lambda cs, rs: {})(cases, impl_runs[list(impl_runs)[0]])
     ev = {
         "property_id": pid, "tier": args.tier, "seed": seed, "level": "proof",
         "coverage": {
@@ -371,14 +383,14 @@ def main():
             "trusted_base": core.TRUSTED_BASE,
             "theorems": [{"name": n, "kind": k, "axioms": axioms_used.get(n)} for n, k in mod.THEOREMS],
             "not_covered": getattr(mod, "NOT_COVERED", []),
-            "evaluations": len(cases) * len(impl_runs),
+            "evaluations": len(cases) * len(both),
             "distinct_nontrivial": len(nontriv),
-            "traces_validated_against_impl": len(cases) * len(impl_runs) - len(corr_fail) - len(prop_fail),
+            "traces_validated_against_impl": len(cases) * len(both) - n_corr_fail - n_prop_fail,
             "rule": mod.RULE,
             "samples": samples,
             "distribution": dist,
             "known_findings_reproduced": {k: len(v) for k, v in known_hit.items()},
-            "assertion_settings": [bool(a) for a in impl_runs],
+            "assertion_settings": [bool(a) for a in both],
             "broken_obligations": problems,
             "notes": notes,
             "repo": args.repo,
@@ -393,7 +405,7 @@ def main():
         for s in samples:
             print(json.dumps(s))
     print("%s %s: %d cases, %d theorems (%d discharged), %d prop-fail, %d corr-fail, %.1fs" % (
-        pid, args.tier, len(cases), len(thm_names), discharged, len(prop_fail), len(corr_fail), time.time() - t0))
+        pid, args.tier, len(cases), len(thm_names), discharged, n_prop_fail, n_corr_fail, time.time() - t0))
     return 1 if violations else 0
 
 
